@@ -902,6 +902,76 @@ def gen_readnumargs(tree):
             'def minIterArgs : Int := %s\n' % (cond, lit['value']))
 
 
+def gen_addvars(tree):
+    """include/mp/problem.h, BasicProblem<>::AddVars(int, var::Type): new size and fill value of `is_var_int_.resize`"""
+    import subprocess
+    tu = os.path.join(tree.work, 'c08_addvars_inst.cc')
+    open(tu, 'w').write(AV_TU)
+    cmd = ['clang++-14', '-std=gnu++17', '-fsyntax-only', '-w', '-DNDEBUG', '-I', os.path.join(tree.repo, 'include'),
+           '-Xclang', '-ast-dump=json', '-Xclang', '-ast-dump-filter=BasicProblem', tu]
+    p = subprocess.run(cmd, capture_output=True, text=True)
+    if p.returncode != 0:
+        raise TranslateError('clang failed on the AddVars TU: ' + p.stderr[:1500])
+    found = []
+
+    def walk(n, spec):
+        if not isinstance(n, dict):
+            return
+        k = n.get('kind')
+        if k == 'ClassTemplateDecl':
+            for c in n.get('inner', []):
+                if isinstance(c, dict) and c.get('kind') == 'CXXRecordDecl':
+                    continue
+                walk(c, spec)
+            return
+        if k == 'ClassTemplateSpecializationDecl':
+            spec = True
+        if k == 'CXXMethodDecl' and n.get('name') == 'AddVars' and spec and n['type']['qualType'].replace('mp::', '') == 'void (int, var::Type)':
+            b = [c for c in n.get('inner', []) if isinstance(c, dict) and c.get('kind') == 'CompoundStmt']
+            if b:
+                found.append(b[0])
+        for c in n.get('inner', []):
+            walk(c, spec)
+    for d in parse_concat_json(p.stdout):
+        prune(d)
+        walk(d, False)
+    if len(found) != 1:
+        raise TranslateError('%d instantiated bodies of BasicProblem::AddVars(int, var::Type)' % len(found))
+    body = found[0]
+    st = [c for c in body['inner'] if not (S(c) in ([], ['(void)0']))]
+    if len(st) != 3:
+        raise TranslateError('AddVars: expected {decl new_size; vars_.resize; is_var_int_.resize}, got %s' % S(body))
+    decl, r1, r2 = st
+    if decl.get('kind') != 'DeclStmt' or decl['inner'][0].get('name') != 'new_size':
+        raise TranslateError('AddVars: first statement is %s' % S(decl))
+    init = [c for c in decl['inner'][0].get('inner', []) if isinstance(c, dict) and 'kind' in c][-1]
+
+    class SemSize(Sem):
+        def E(self, n, want=None):
+            n1 = strip(n)
+            k = n1.get('kind')
+            if k == 'CallExpr' and callee_name(n1['inner'][0]) == 'val' and len(n1['inner']) == 2:
+                return self.E(n1['inner'][1], want)            # SafeInt<int> -> int (value unchanged; overflow throws: C17)
+            if k == 'CXXOperatorCallExpr' and callee_name(n1['inner'][0]) == 'operator+' and len(n1['inner']) == 3:
+                a, _ = self.E(n1['inner'][1], 'Int'); b, _ = self.E(n1['inner'][2], 'Int')
+                return ('(%s + %s)' % (a, b), 'Int')
+            if k in ('CXXConstructExpr', 'CXXTemporaryObjectExpr') and 'SafeInt' in n1['type']['qualType'] and len(n1.get('inner', [])) == 1:
+                return self.E(n1['inner'][0], want)
+            return super().E(n, want)
+    tsize = SemSize({'vars_.size()': ('size', 'Int'), 'num_vars': ('numVars', 'Int')}).E(init, 'Int')[0]
+    for r, nm in ((r1, 'vars_'), (r2, 'is_var_int_')):
+        r0 = strip(r)
+        if r0.get('kind') != 'CXXMemberCallExpr' or not R(r0).startswith(nm + '.resize(new_size, '):
+            raise TranslateError('AddVars: expected %s.resize(new_size, ...), got %s' % (nm, R(r0)))
+    fill = strip(r2)['inner'][2]
+    tfill = Sem({'type': ('ty', 'Int'), 'CONTINUOUS': ('contVal', 'Int')}).E(fill, 'Bool')[0]
+    return ('/-- `BasicProblem<>::AddVars(int num_vars, var::Type type)` (include/mp/problem.h): both `vars_` and `is_var_int_` are\n'
+            'resized to `addVarsNewSize`, new `is_var_int_` entries get `addVarsFill` (`ty` / `contVal`: the enum codes of `type` and of\n'
+            '`var::CONTINUOUS`); `SafeInt` arithmetic is exact or throws (C17) -/\n'
+            'def addVarsNewSize (size numVars : Int) : Int := %s\n'
+            'def addVarsFill (ty contVal : Int) : Bool := %s\n' % (tsize, tfill))
+
+
 SKELS = [  # (lean name, source file, dump filter, function name, signature substring or None)
     ('FeedObjGradient', 'nl-writer2/src/nl-solver.cc', 'NLFeeder_Easy', 'FeedObjGradient', None),
     ('FeedObjExpression', 'nl-writer2/src/nl-solver.cc', 'NLFeeder_Easy', 'FeedObjExpression', None),
@@ -948,7 +1018,7 @@ def main(repo, out, work):
          'namespace MpVerif.Gen.C08Easy',
          'open MpVerif.C08',
          '',
-         gen_permute_step(tree), gen_objvalue(tree), gen_solhandler(tree), gen_walks(tree), gen_revmap(tree), gen_namefile(tree), gen_addvariables(tree), gen_readnumargs(tree)]
+         gen_permute_step(tree), gen_objvalue(tree), gen_solhandler(tree), gen_walks(tree), gen_revmap(tree), gen_namefile(tree), gen_addvariables(tree), gen_readnumargs(tree), gen_addvars(tree)]
     names = []
     for lean, src, flt, fn, sig in SKELS:
         _, _, rend = tree.body(src, flt, fn, None, sig)
@@ -961,7 +1031,7 @@ def main(repo, out, work):
     old = open(out).read() if os.path.exists(out) else None
     if old != text:
         open(out, 'w').write(text)
-    print('generated 40 semantic defs, %d skeletons -> %s%s' % (len(names), out, '' if old != text else ' (unchanged)'))
+    print('generated 42 semantic defs, %d skeletons -> %s%s' % (len(names), out, '' if old != text else ' (unchanged)'))
 
 
 if __name__ == '__main__':
